@@ -355,7 +355,7 @@ func (p *c20prop) runTwin(c *core.Case, cc *C20Case, st *core.Stats) []core.Viol
 
 func init() {
 	core.Register(&c20prop{base{id: "C20", level: "exploration",
-		rule: "fields: every field of all 7 configuration types is filled with 0, small, negative, large, +-int64 extremes and random 64-bit values (Cost from valid UTF-8 strings incl. HTML-escaped and non-ASCII characters), after another random configuration was decoded (state leaks between decodes): ParseJSON(Marshal(&cfg)) must return the same type with DeepEqual fields, every other type must reject the document, Clone must be equal and independent (mutated through SetBufConfig), SetDefaults idempotent and only replacing zero fields; docs: hand-written hostile documents and valid documents whose Type was changed to an unknown one or removed must be rejected by ParseJSON and by all 7 typed Unmarshal; twin: for valid small configurations with some zero fields the parser's ParserConfig()/BufferConfig() must equal the harness' Clone+SetDefaults copy and parsers created from the reported configuration (directly and through JSON) must emit identical blocks; non-trivial = every completed case; distinct = distinct concrete case",
+		rule:        "fields: every field of all 7 configuration types is filled with 0, small, negative, large, +-int64 extremes and random 64-bit values (Cost from valid UTF-8 strings incl. HTML-escaped and non-ASCII characters), after another random configuration was decoded (state leaks between decodes): ParseJSON(Marshal(&cfg)) must return the same type with DeepEqual fields, every other type must reject the document, Clone must be equal and independent (mutated through SetBufConfig), SetDefaults idempotent and only replacing zero fields; docs: hand-written hostile documents and valid documents whose Type was changed to an unknown one or removed must be rejected by ParseJSON and by all 7 typed Unmarshal; twin: for valid small configurations with some zero fields the parser's ParserConfig()/BufferConfig() must equal the harness' Clone+SetDefaults copy and parsers created from the reported configuration (directly and through JSON) must emit identical blocks; non-trivial = every completed case; distinct = distinct concrete case",
 		assumptions: []string{"JSON cannot carry invalid UTF-8: Cost strings are valid UTF-8", "the harness builds library configuration values by plain field assignment, independent of the library's JSON code"},
 		mandatory:   []string{"roundtrips", "cross_type_rejections", "clones", "setdefaults_checked", "hostile_documents", "typed_unmarshal_rejections", "reported_configs_checked", "twins_compared"}}})
 }
